@@ -13,11 +13,14 @@ EXTENDS Integers, Sequences, TLC, Json
 CONSTANTS Part, Depth, AutoAccept, Pipe, Buf     \* Buf: capacity of the connection / session channels (1: sends suspend between frames; 256: they do not)
 
 RecvEv == {"Recv", "Cancel", "T1", "T2a", "T2b"}
+\* part "mix": a receiving link with Auto(2) credit next to a sending link that keeps the capacity-1 channel to the session busy
+\* (a send of ten link-level frames running in the background), so that whatever recv has to send (credit flows) has to wait
+MixEv == {"Recv", "RecvNow1", "RecvNow2", "T1", "BigNow", "Yield"}
 SendEv == {"Send", "SendL", "SendM", "SendNow", "SendNowBig", "SendNow1", "SendNow2", "Cancel", "Yield", "Grant1", "Grant3", "Disp"}
 VARIABLES script, half
 Init == script = <<>> /\ half = FALSE
 Next == /\ Len(script) < Depth
-        /\ \E e \in (IF Part = "recv" THEN RecvEv ELSE SendEv) :
+        /\ \E e \in (IF Part = "recv" THEN RecvEv ELSE IF Part = "mix" THEN MixEv ELSE SendEv) :
              /\ (e = "T2b" => half) /\ (e \in {"T1", "T2a"} => ~half)
              /\ script' = Append(script, e) /\ half' = (IF e = "T2a" THEN TRUE ELSE IF e = "T2b" THEN FALSE ELSE half)
 Spec == Init /\ [][Next]_<<script, half>>
@@ -33,6 +36,21 @@ SendPrefix == Open \o << [e |-> "AAttachS", l |-> "L1", s |-> "s1", cfg |-> [snd
 X(k, first, more, m, len, off, n) == [e |-> "PFrame", perf |-> "transfer", ch |-> 3,
    f |-> [h |-> 6, did |-> IF first THEN k ELSE -1, tagn |-> IF first THEN 1 ELSE -1, tag |-> <<k % 250>>, fmt |-> IF first THEN 0 ELSE -1, settled |-> IF first THEN "t" ELSE "none", more |-> more, aborted |-> FALSE],
    msg |-> [m |-> m, len |-> len, off |-> off, n |-> n, shape |-> "full"]]
+MixPrefix == Open \o << [e |-> "AAttachS", l |-> "L1", s |-> "s1", cfg |-> [snd |-> 1, rcv |-> 0, idc |-> 0]],
+                        [e |-> "PFrame", perf |-> "attach", ch |-> 3, f |-> [name |-> "L1", h |-> 5, role |-> "r", snd |-> 1, rcv |-> 0, mms |-> 150]],
+                        [e |-> "PFrame", perf |-> "flow", ch |-> 3, ech |-> 0, f |-> [nii |-> [seen |-> 0], iw |-> 1000, noi |-> 0, ow |-> 100, h |-> 5, dc |-> 0, lc |-> 50]],
+                        [e |-> "AAttachR", l |-> "L2", s |-> "s1", cfg |-> [snd |-> 2, rcv |-> 0, credit |-> 2, auto_accept |-> FALSE]],
+                        [e |-> "PFrame", perf |-> "attach", ch |-> 3, f |-> [name |-> "L2", h |-> 6, role |-> "s", snd |-> 2, rcv |-> 0, idc |-> 0]] >>
+RECURSIVE MBody(_, _, _, _)
+MBody(sc, i, k, m) == IF i > Len(sc) THEN <<>> ELSE LET e == sc[i] IN
+  CASE e = "Recv" -> <<[e |-> "ARecv", l |-> "L2"]>> \o MBody(sc, i + 1, k, m)
+    [] e = "RecvNow1" -> <<[e |-> "ARecv", l |-> "L2", nosettle |-> TRUE], [e |-> "Yield", n |-> 1, nosettle |-> TRUE], [e |-> "ACancel", l |-> "L2"]>> \o MBody(sc, i + 1, k, m)
+    [] e = "RecvNow2" -> <<[e |-> "ARecv", l |-> "L2", nosettle |-> TRUE], [e |-> "Yield", n |-> 2, nosettle |-> TRUE], [e |-> "ACancel", l |-> "L2"]>> \o MBody(sc, i + 1, k, m)
+    [] e = "T1" -> <<X(k, TRUE, FALSE, 500 + k, 30, 0, -1)>> \o MBody(sc, i + 1, k + 1, m)
+    \* the send runs until every stage of the way out is occupied (nothing is read off the 200-byte transport pipe meanwhile)
+    [] e = "BigNow" -> <<[e |-> "ASend", l |-> "L1", m |-> m, len |-> 1400, nosettle |-> TRUE], [e |-> "Yield", n |-> 3, nosettle |-> TRUE]>> \o MBody(sc, i + 1, k, m + 1)
+    [] OTHER -> <<[e |-> "Yield", n |-> 5]>> \o MBody(sc, i + 1, k, m)
+MSuffix == [i \in 1..(Depth + 1) |-> [e |-> "ARecv", l |-> "L2"]]
 RECURSIVE RBody(_, _, _)
 RBody(sc, i, k) == IF i > Len(sc) THEN <<>> ELSE LET e == sc[i] IN
   CASE e = "Recv" -> <<[e |-> "ARecv", l |-> "L2"]>> \o RBody(sc, i + 1, k)
@@ -61,5 +79,6 @@ SBody(sc, i, m, d) == IF i > Len(sc) THEN <<>> ELSE LET e == sc[i] IN
 SSuffix == << [e |-> "ACancel", l |-> "L1"], Grant(20), [e |-> "ASend", l |-> "L1", m |-> 90, len |-> 400, settled |-> TRUE], [e |-> "ASend", l |-> "L1", m |-> 91, len |-> 20, settled |-> TRUE] >>
 Done == Len(script) = Depth
 Emit == Done => PrintT(<<"SCRIPT", ToJson([side |-> "client", id |-> <<Part, AutoAccept, Pipe, Buf>> \o script, final_ms |-> 5000,
-                           ev |-> IF Part = "recv" THEN RecvPrefix \o RBody(script, 1, 0) \o RSuffix ELSE SendPrefix \o SBody(script, 1, 1, 0) \o SSuffix])>>)
+                           ev |-> IF Part = "recv" THEN RecvPrefix \o RBody(script, 1, 0) \o RSuffix
+                                  ELSE IF Part = "mix" THEN MixPrefix \o MBody(script, 1, 0, 1) \o MSuffix ELSE SendPrefix \o SBody(script, 1, 1, 0) \o SSuffix])>>)
 =============================================================================
